@@ -1,6 +1,6 @@
 """Reference bit-field codec for SpaPackStruct items, written from the pack-structure conventions
 (big-endian 1- or 2-byte field at `pos`; optional BitPos; field width in bits from MaxItems:
-<=2 -> 1, <=4 -> 2, <=8 -> 3, <=16 -> 4; Bool = 1 bit; no BitPos = the whole field) - NOT from
+enough bits for MaxItems values: <=2 -> 1, <=4 -> 2, <=8 -> 3, <=16 -> 4, <=32 -> 5, <=64 -> 6; Bool = 1 bit; no BitPos = the whole field) - NOT from
 accessor.py.  Used as the oracle for C02/C03/C11/C12/C13/C14/C17."""
 from __future__ import annotations
 
@@ -11,13 +11,7 @@ def nbits(maxitems, typ):
     if maxitems is None:
         return 1
     m = int(maxitems)
-    if m <= 2:
-        return 1
-    if m <= 4:
-        return 2
-    if m <= 8:
-        return 3
-    return 4
+    return max(1, (m - 1).bit_length())
 
 
 def width(typ, size):
